@@ -417,7 +417,10 @@ def gen_mut_shard(args) -> dict:
         rng = random.Random(seed * 733 + len(cases))
         reads = read_boundaries(cls, raw)
         probes = []
-        for i, m in enumerate(mutations(raw, reads, rng, per_case)):
+        muts = mutations(raw, reads, rng, per_case)
+        if c.get("edge"):
+            muts = [raw] + muts[: max(2, per_case // 4)]        # the edge encoding itself, then a few corruptions
+        for i, m in enumerate(muts):
             p = probe(cls, m)
             pr = {"b": project.babs(m), "out": p["out"], "mro": p["mro"], "serial": p["serial"],
                   "consumed": p["consumed"], "reads": p["reads"], "rval": project.NULL,
@@ -457,5 +460,19 @@ def gen_probe_inputs(args) -> dict:
                 var = sample_variant(random.Random(seed * 13 + ci * 7 + k), canonical=False)
             cases.append({"id": f"p{ci}_{k}", "sid": schema["sid"], "value": s.value(schema, budget=120),
                           "var": var})
+        edges = args[6] if len(args) > 6 else 0
+        if edges:
+            # wire values at the edge of the library's value types: all of them for the rare types,
+            # a rotating pair otherwise (thorough: all)
+            from .absval import EDGES, RARE_EDGE_TYPES, edge_types
+            kts = edge_types(schema)
+            if kts:
+                full = max(len(EDGES[k]) for k in kts)
+                idxs = range(full) if (edges > 2 or kts & set(RARE_EDGE_TYPES)) else [(2 * ci) % full, (2 * ci + 1) % full]
+                for j in idxs:
+                    s = Sampler(seed * 1000211 + ci * 107 + 50 + j, profile="max", ms_timestamps=ms_timestamps,
+                                wire_domain=True, edge=j)
+                    cases.append({"id": f"p{ci}_e{j}", "sid": schema["sid"], "value": s.value(schema, budget=60),
+                                  "var": CANON_VAR, "edge": True})
     write_shard(path, schemas, cases)
     return {"path": path, "cases": len(cases)}
